@@ -93,6 +93,7 @@ Extract(r) == ModelExtract(Rec, r, IF Faithful THEN 0 - 1 ELSE 1)   \* FALSE: ne
 ExtractsWellFormed == HasRegions => \A r \in DOMAIN Rec.regions : ExtractWellFormed(Extract(r))
 (* shifting back gives the original bases, feature by feature *)
 ShiftPreservesBases == HasRegions => \A r \in DOMAIN Rec.regions : BasesPreserved(Rec, r, Extract(r))
+ShiftIsRingShift == HasRegions => \A r \in DOMAIN Rec.regions : MoveIsRingShift(Rec, r)
 (* a faithful extract rebuilds to exactly one region *)
 ReloadGivesOneRegion == HasRegions => \A r \in DOMAIN Rec.regions : OneComponent(Extract(r))
 (* the model extract satisfies the relation the trace spec demands of the real one *)
